@@ -1427,6 +1427,15 @@ def op_supported(impl, scope, op):
           continue
         if D.is_sym(y) and any_typed(impl, y) and (y.sym_parent is not None or y is tgt_root): return False
   tag = op[0]
+  if tag in (D.LSORT, D.LREVERSE):
+    # two placeholders of removed elements in a typed list are distinct objects (MissingValue(spec)): sorting / reversing them counts as
+    # a change there (and the notification purges them), while the leaves of the model are equal
+    try:
+      t = impl.at(op[1])
+      if D.is_sym(t) and typed_members(impl, t) and sum(1 for _, v in D.sym_children(t) if isinstance(v, P.utils.MissingValue)) >= 2:
+        return False
+    except D.NotApplicable:
+      pass
   if tag in (D.LIMUL, D.LMUL, D.LADD, D.LCOPY, D.CLONE, D.DCOPY, D.LEXTEND, D.LIADD):
     # re-inserting / copying typed symbolic children goes through the compatibility path of custom_apply (not modelled yet)
     try:
@@ -1528,6 +1537,9 @@ def corpus():
   tbf = Table((T.Dict([('x', fz), ('y', T.Any(default=None))]), None, None)); Df = tbf.add(T.Dict([('x', T.Dict([('b', T.Int())]).freeze({'b': 1}))]))
   out['frozen-container-default-is-not-shared'] = (mkcase(tbf, [troot(2, tbf.cls[0], {}), troot(2, tbf.cls[0], {}), troot(0, Df, {}), troot(0, Df, {})], [
       (NS, [D.CLONE, Pp(0), 0]), (NS, [D.CLONE, Pp(2), 0])]), False)
+  # found by the thorough tier (kept as they were generated)
+  out['refused-list-add-hands-adopted-values-back'] = (trlib.parse_line('((0 1 1 1 0 0 1 0) ((7 ((((0 (120)) (10 (1 ((0)) 0))) ((0 (121)) (10 (1 ((0)) 0))))) (0 ((8 (((120) (0)) ((121) (0))))) 0)) (7 ((((0 (120)) (10 (1 ((0)) 0))) ((0 (121)) (10 (1 ((0)) 0))) ((0 (122)) (10 (1 ((0)) 0))))) (0 ((8 (((120) (0)) ((121) (0)) ((122) (0))))) 0)) (7 ((((0 (120)) (5 (10 (1 () 0)) 1 () (1 () 0))))) (0 ((8 (((120) (1))))) 0)) (5 (10 (1 () 0)) 1 () (1 () 0)) (5 (9 ((6 ((0 (0 ((2 0)) 1)) (3 (0 ((5 ())) 0))) 2 (2) (0 ((7 ((2 0) (5 (98))))) 1)) (10 (1 ((3 2)) 0))) (1 ((3 6)) 0)) 0 () (0 () 0))) (1 2 3) ((1 1 5 (0 1 0) (6 ((3 6)))) (1 3 2 (0 1 0) (8 ())) (0 (1 0 (0 1 1) 0 (((0 122) (0 (2 -1))))))) (((() () () ()) (5 (0 ()) ((3 (7 ((0))))))) ((() () (1) ()) (6 (0 ()) (0))) ((() () () (())) (40 (1 ()) ((((0 122)) (3 (3 1))) (((0 121)) (3 (2 0)))))) ((() (()) (0) ()) (13 (0 ()) ((1 0 ()) (3 (7 ((3 0) (0)))) (3 (4 128))))) ((() () () ()) (30 (1 ()) (0 122) (0 (1 1 (0 1 0) 1 (((1 0) (0 (1 0))) ((1 1) (0 (3)))))))) ((() () () ()) (5 (0 ()) ((3 (4 128)) (3 (2 0))))) ((() () () ()) (40 (1 ()) ((((0 121)) (1 0 ()))))) ((() () () ()) (4 (1 ((0 121))) 2 (1 1 ((0 122)))))))'), False)
+  out['sort-of-a-typed-list-with-two-placeholders'] = (trlib.parse_line('((0 1 1 1 0 0 1 1) ((7 ((((0 (120)) (10 (1 ((0)) 0))) ((0 (121)) (10 (1 ((0)) 0))))) (0 ((8 (((120) (0)) ((121) (0))))) 0)) (7 ((((0 (120)) (10 (1 ((0)) 0))) ((0 (121)) (10 (1 ((0)) 0))) ((0 (122)) (10 (1 ((0)) 0))))) (0 ((8 (((120) (0)) ((121) (0)) ((122) (0))))) 0)) (7 ((((0 (120)) (10 (1 ((0)) 0))))) (0 ((8 (((120) (0))))) 0)) (5 (9 ((0 (0 ((2 0)) 1)) (4 ((2 1) (2 0)) (0 ((2 1)) 0))) (0 () 0)) 0 () (0 () 0)) (7 ((((0 (98)) (5 (2 () (0) (0 () 0)) 0 (5) (0 () 0))) ((0 (120)) (0 (0 ((2 0)) 0))))) (0 ((8 (((98) (1)) ((120) (2 0))))) 0)) (5 (2 () (0) (0 () 0)) 0 (5) (0 () 0)) (5 (2 (0) (32) (1 ((4 0)) 0)) 1 (1) (0 () 0))) (1 2 3) ((1 1 4 (0 1 1) (6 ())) (1 0 5 (0 1 0) (8 (((98) (6 ((2 1))))))) (1 1 7 (0 1 0) (6 ((0)))) (0 (1 0 (0 1 0) 0 (((0 98) (0 (2 1))))))) (((() () (0) ((0) (0))) (1 (0 ()) 0 (3 (3 1)))) ((() () () ()) (1 (2 ()) 0 (3 (0)))) ((() () () ()) (40 (2 ()) ((((1 3)) (3 (3 0))) (((1 0)) (2 (3 (4 32))))))) ((((0)) () (0) ()) (4 (0 ()) 0 (3 (1)))) ((() () (1 0) ((0) (1))) (4 (0 ()) -2 (3 (1)))) ((() () () ()) (10 (0 ()) (2 3) 1)) ((() () () ()) (1 (2 ()) -1 (3 (3 0))))))'), True)
   return out
 
 def open_witnesses():
